@@ -198,10 +198,12 @@ def answer(res):
     return (res.status.name, repr(res.objective), repr(res.solution))
 
 
-def call_solver(fn):
-    """-> (result, exception).  pyo3 panics derive from BaseException."""
+def call_solver(fn, key="mst"):
+    """-> (result, exception).  pyo3 panics derive from BaseException.  Every call has its own CPU budget (checks/guard.py): a
+    function that exhausted it twice in this worker is not called again."""
+    from checks.guard import guarded_b
     try:
-        return fn(), None
+        return guarded_b(key, CPU_BUDGET, fn), None
     except (KeyboardInterrupt, SystemExit):
         raise
     except BaseException as e:  # noqa: BLE001 - any exception is a contract violation ("each return ...")
@@ -231,12 +233,12 @@ def run_case(case, repeat):
             f = lambda: prim(g, start=s)  # noqa: E731
         snap = lambda: snapshot(g)  # noqa: E731
         what = "adjacency mapping"
-    res, exc = call_solver(f)
+    res, exc = call_solver(f, case["fn"])
     after = snap()
     if after != before:
         frame.append((f"frame:caller-owned-{what.replace(' ', '-')}-unchanged", f"before the call {before}, after it {after}"))
     elif repeat and exc is None:
-        res2, exc2 = call_solver(f)
+        res2, exc2 = call_solver(f, case["fn"])
         a1 = answer(res)
         a2 = ("exception", repr(exc2), "") if exc2 is not None else answer(res2)
         if a1 != a2:
